@@ -9,6 +9,7 @@ package main
 // implementation alone: a resource whose owner is not the signer must not change.
 
 import (
+	"reflect"
 	"encoding/hex"
 	"encoding/json"
 	"fmt"
@@ -882,6 +883,80 @@ func c11Wasm(r *RunCtx) error {
 			}
 			r.Case("frames", fmt.Sprintf("WStep %s %s %s %s %s %s %s %s", preC, tab.acctN(c.contract.String()), msgC, tab.sid("m:"+hex.EncodeToString(merkle)), cZ(height), posted, c11Out(out), postC), desc)
 		}
+		// every OTHER variant the binding offers (found by reflection over bindings.JackalMsg, so that a variant added
+		// later is probed the day it appears): a contract sends it naming another account and that account's file.
+		// Whatever the variant does, nothing of an account that did not sign may change.
+		{
+			victim := Acct(1)
+			height++
+			e.At(height, T0.Add(time.Duration(height)*6*time.Second))
+			vm := p.Bytes(32)
+			_ = e.Run(&storagetypes.MsgPostFile{Creator: victim.String(), Merkle: vm, FileSize: 77, MaxProofs: 3, Note: "{}"})
+			vstart := height
+			jt := reflect.TypeOf(bindings.JackalMsg{})
+			for fi := 0; fi < jt.NumField(); fi++ {
+				fld := jt.Field(fi)
+				if fld.Name == "PostFile" || fld.Type.Kind() != reflect.Ptr || fld.Type.Elem().Kind() != reflect.Struct {
+					continue
+				}
+				for _, ct := range contracts {
+					inner := reflect.New(fld.Type.Elem())
+					for k := 0; k < inner.Elem().NumField(); k++ {
+						f, ft := inner.Elem().Field(k), fld.Type.Elem().Field(k)
+						if !f.CanSet() {
+							continue
+						}
+						switch {
+						case f.Kind() == reflect.String:
+							f.SetString(victim.String())
+						case f.Kind() == reflect.Slice && f.Type().Elem().Kind() == reflect.Uint8:
+							f.SetBytes(append([]byte{}, vm...))
+						case f.Kind() == reflect.Int64 && strings.Contains(strings.ToLower(ft.Name), "start"):
+							f.SetInt(vstart)
+						case f.Kind() == reflect.Int64:
+							f.SetInt(3)
+						}
+					}
+					jm := reflect.New(jt)
+					jm.Elem().Field(fi).Set(inner)
+					custom, _ := json.Marshal(jm.Interface())
+					height++
+					e.At(height, T0.Add(time.Duration(height)*6*time.Second))
+					pre := c11Files(e)
+					_, preSt := c11ObserveStorage(e, tab)
+					preBal := e.Bal(victim, "ujkl")
+					cctx, write := e.Ctx.CacheContext()
+					var cerr error
+					pn := Guard(func() { _, _, cerr = messenger.DispatchMsg(cctx, ct, "", wasmvmtypes.CosmosMsg{Custom: custom}) })
+					if pn == "" && cerr == nil {
+						write()
+					}
+					post := c11Files(e)
+					_, postSt := c11ObserveStorage(e, tab)
+					desc := map[string]interface{}{"family": "wasm", "variant": fld.Name, "contract": ct.String(), "custom": string(custom), "panic": pn, "err": fmt.Sprint(cerr)}
+					r.Hist("wasm", "other-variant:"+fld.Name)
+					changed := e.Bal(victim, "ujkl") != preBal
+					for k, o := range pre {
+						if q, still := post[k]; o.keyOwner != ct.String() && (!still || q.file.String() != o.file.String()) {
+							changed = true
+						}
+					}
+					for k, o := range post {
+						if _, was := pre[k]; !was && o.keyOwner != ct.String() {
+							changed = true
+						}
+					}
+					for a, u := range preSt.pay {
+						if v, ok := postSt.pay[a]; (!ok || v != u) && a != ct.String() {
+							changed = true
+						}
+					}
+					if changed {
+						r.Finding("C11/wasm/foreign-resource-changed/"+fld.Name, fmt.Sprintf("contract %s changed a file, plan or balance of %s, which signed nothing, through the custom message %s", ct, victim, string(custom)), desc)
+					}
+				}
+			}
+		}
 		e.Close()
 	}
 	return nil
@@ -958,6 +1033,13 @@ func c11Notif(r *RunCtx) error {
 			notes = append(notes, note{Acct(1).String(), 1})
 		}
 		notes = append(notes, note{"x/y", 5}, note{Acct(2).String() + "/" + Acct(3).String(), 7}, note{strings.ToUpper(Acct(1).String()), notes[0].tm})
+		// "from" is free text that ends up inside a store key: path-shaped values must not reach another inbox's entry
+		for _, nt := range append([]note{}, notes[:len(notes)-3]...) {
+			for v := 1; v <= 4; v++ {
+				notes = append(notes, note{"../" + Acct(v).String() + "/" + nt.from, nt.tm})
+			}
+			notes = append(notes, note{"./" + nt.from, nt.tm}, note{nt.from + "/.", nt.tm}, note{nt.from + "/", nt.tm}, note{"/" + nt.from, nt.tm})
+		}
 		step := func(msg sdk.Msg, creator string, op func() string, kind string) error {
 			if msg.ValidateBasic() != nil {
 				r.Hist("notifications", "validatebasic-rejects")
@@ -1000,8 +1082,21 @@ func c11Notif(r *RunCtx) error {
 			}
 		}
 		c11Shuffle(p, pairs)
-		if !r.Thorough() && len(pairs) > 40 {
-			pairs = pairs[:40]
+		// half of the quick budget goes to the path-shaped senders
+		sort.SliceStable(pairs, func(i, j int) bool {
+			return strings.Contains(pairs[i].n.from, "../") && !strings.Contains(pairs[j].n.from, "../")
+		})
+		if nt := len(pairs); !r.Thorough() && nt > 64 {
+			k := 0
+			for k < nt && strings.Contains(pairs[k].n.from, "../") {
+				k++
+			}
+			if k > 32 {
+				pairs = append(append([]pair{}, pairs[:32]...), pairs[k:]...)
+			}
+			if len(pairs) > 64 {
+				pairs = pairs[:64]
+			}
 		}
 		e.At(20, T0.Add(300*time.Second))
 		// block lists first (so that deletes run with block entries present in the same store prefix)
